@@ -46,11 +46,17 @@ type ProgOpts struct {
 	Pre      map[string]string // sandbox files
 	KeepFS   bool
 	MaxSteps int
+	// Compact: the main file is written without the optional blanks around operators, commas and brackets
+	// (compactLayout); the expected behaviour is the same program's.
+	Compact bool
 }
 
 // JudgeBash runs prog through the model, the real transpiler and the real bash.
 func JudgeBash(prog *tsmodel.Prog, o ProgOpts) ProgVerdict {
 	src := tsmodel.PrintProg(*prog)
+	if o.Compact {
+		src = compactLayout(src)
+	}
 	in := &tsmodel.Interp{Width: 64, Loader: o.Loader, Stdin: append([]string{}, o.StdinL...), MaxSteps: o.MaxSteps}
 	if o.Pre != nil {
 		in.FS = map[string]string{}
